@@ -13,7 +13,7 @@
    model saw no modification (a write that went around the recorder).  A run killed by a signal (sig # 0: crash,
    or the harness' timeout) takes the environment step Killed -- property C06 judges it, not this one -- but all of
    the above still applies to it.  RoUnmodified and ExitDocumented are evaluated after every line.            *)
-EXTENDS ToolRun, Json, IOUtils, Sequences
+EXTENDS ToolRun, Json, IOUtils, Sequences, TLC
 VARIABLES l
 tvars == <<vars, l>>
 Tr == ndJsonDeserialize(IOEnv.TRACE)
